@@ -5,7 +5,8 @@ from .. import common, gen, trees
 
 LEVEL = "proof"
 RULE = ("trees named by auto_name (parsed and programmatic, no BoolOperation, no empty operation) x truth "
-        "assignments to the terms (all assignments up to 6 terms, random beyond) x both default operations; the "
+        "assignments to the terms (all assignments up to 6 terms, random beyond) x both default operations x the names "
+        "of named operations (parenthesised operands) reported too when true, or not reported at all; the "
         "cases where a negation lies strictly between a named element and its term are generated too but only "
         "counted. non-trivial = at least one operation; distinct = distinct (tree, assignment, default)")
 ASSUMPTIONS = ["hypotheses of the property: no negation strictly between a named element and its term; besides: "
@@ -24,6 +25,23 @@ def covered_term(d, path):
         if d["c"] in TERMLIKE:
             return path, neg_between
         if d["c"].endswith("Operation") or not d["ch"]:
+            return None, neg_between
+        if d["c"] in NEG and not first:
+            neg_between = True
+        first = False
+        d = d["ch"][0]
+        path = path + (0,)
+
+
+def covered_operation(d, path):
+    """path of the operation a named element covers (None when it covers a term, or nothing), and whether a negation
+    lies strictly between the element and that operation"""
+    neg_between = False
+    first = True
+    while True:
+        if d["c"].endswith("Operation"):
+            return path, neg_between
+        if d["c"] in TERMLIKE or not d["ch"]:
             return None, neg_between
         if d["c"] in NEG and not first:
             neg_between = True
@@ -80,9 +98,24 @@ def run(ctx):
         else:
             assigns = [tuple(rng.random() < 0.5 for _ in terms) for _ in range(6)]
         visible = [p for p in nodes if not any(nodes[p[:k]]["c"] in ("Range", "Fuzzy", "Proximity") for k in range(len(p)))]
+        cover_op = {p: covered_operation(nodes[p], p) for p, tp in cover.items() if tp is None}
         for a in assigns:
             tau = dict(zip(terms, a))
             matching = {p for p, tp in cover.items() if tp is not None and tau[tp]}
+            # a named element which covers an operation (a parenthesised operand, say) has no term of its own; the
+            # search engine reports its name when the clause built for that operation matched. Half of the
+            # assignments report these names too (truthfully: when the operation is true under either reading of
+            # the implicit operation, and no negation lies strictly between the element and the operation); in the
+            # other half they are all among the names that were not reported.
+            reported_ops = set()
+            if rng.random() < 0.5:
+                for p, (op_path, negb) in cover_op.items():
+                    if op_path is not None and not negb and all(
+                            evaluate(nodes[op_path], op_path, tau, dflt) for dflt in (True, False)):
+                        reported_ops.add(p)
+            if reported_ops:
+                ctx.count("assignments where named operations are reported too")
+            matching |= reported_ops
             other = set(cover) - matching
             # the documented way from names (as Elasticsearch reports them) to the two path sets
             inv = {tuple(v): k for k, v in name_to_path.items()}
